@@ -485,6 +485,8 @@ def run_case(case):
         _scen_replay(out, ctx, case, n, ref, s_ref)
     elif scen == "wrapper":
         _scen_wrapper(out, ctx, case, n, ref)
+    elif scen == "scale":
+        _scen_scale(out, ctx, case, n, ref)
     else:
         raise ValueError("unknown scenario %r" % scen)
 
@@ -543,6 +545,52 @@ def _cmp(ctx, kind, a, b, detail):
              "reference": a[max(0, first - 1):first + 2], "got": b[max(0, first - 1):first + 2]}
         d.update(detail)
         ctx.fail(kind, d)
+
+
+SCALE_PARAM = {"DistExponential": "mean", "DistErlang": "scale", "DistGamma": "scale", "DistWeibull": "beta",
+               "DistPearson5": "beta", "DistPearson6": "beta"}
+
+
+def _scen_scale(out, ctx, case, n, ref):
+    """The scale parameter of a scale family only scales: with the scale multiplied by 2**k (exact in binary
+    floating point) and the same stream output, every draw is the old draw times 2**k - as long as that value is
+    a double (results in the subnormal range: to one unit of the last place)."""
+    import pydsol.core.distributions as D
+    pname = SCALE_PARAM[ctx.cname]
+    base = float(ctx.p[pname])
+    for k in case["shifts"]:
+        scaled = math.ldexp(base, k)
+        if scaled == 0.0 or math.isinf(scaled):
+            continue
+        s2 = _mk_stream(case["stream"], n)
+        try:
+            d2 = getattr(D, ctx.cname)(s2, **dict(ctx.kw, **{pname: scaled}))
+        except Exception as e:                                    # noqa: BLE001
+            ctx.fail("construct-raises:%s:%s:valid-params" % (ctx.cname, type(e).__name__),
+                     {"scale": scaled.hex(), "error": str(e)[:100]})
+            return
+        for i, rec in enumerate(ref):
+            if rec[0] != "float":
+                break
+            x = float.fromhex(rec[1])
+            want = math.ldexp(x, k)
+            try:
+                y = d2.draw()
+            except Exception as e:                                # noqa: BLE001
+                ctx.fail("scale-equivariance:%s:draw-raises:%s" % (ctx.cname, type(e).__name__),
+                         {"scale": scaled.hex(), "draw": i, "want": want.hex()})
+                break                      # (the next shift is looked at all the same)
+            if math.isinf(want) or want == 0.0 or x == 0.0:
+                continue
+            if not (isinstance(y, float) and abs(y - want) <= 1e-12 * abs(want) + 1e-323):
+                how = "draw-inf" if isinstance(y, float) and math.isinf(y) else \
+                    "draw-zero" if y == 0 else "differs"
+                ctx.fail("scale-equivariance:%s:%s" % (ctx.cname, how),
+                         {"scale_exponent": k, "draw": i, "got": _bits(y), "want": want.hex(),
+                          "at_scale_1": x.hex(), "params": _show(ctx.p)})
+                break
+    out.label("scale-equivariance")
+    out.nontrivial = True
 
 
 def _scen_twin(out, ctx, case, n, ref):
@@ -1054,6 +1102,13 @@ def enumerate_cases(tier):
                 cases.append({"cls": cname, "params": _e(p), "bad_stream": False, "scen": "twin",
                               "stream": {"k": "scr", "prefix": [_hx(u) for u in run * (4400 // len(run))], "tail": 7},
                               "n": 1})
+    # 1c. scale families: the scale parameter times 2**k, k down to the subnormal range and up to 2**1000
+    for cname, pname in SCALE_PARAM.items():
+        for p in ENUM_PARAMS[cname]:
+            for seed in (5, 6):
+                cases.append({"cls": cname, "params": _e(dict(p, **{pname: 1.0})), "bad_stream": False, "scen": "scale",
+                              "stream": {"k": "mt", "seed": seed}, "n": 12,
+                              "shifts": [-1060, -1000, -30, -1, 1, 30, 900, 1000]})
     # 2. every invalid alternative of every parameter, every violated relation, a non-stream
     for cname in CLASSES:
         base = _e(ENUM_PARAMS[cname][1])
